@@ -63,10 +63,10 @@ DenseSymmetricMatrix compute_covariance_matrix(RandomAccessIterator begin, Rando
     for (RandomAccessIterator iter = begin; iter != end; ++iter)
     {
         callback.vector(*iter, current_vector);
+        current_vector -= mean;
         covariance_matrix.selfadjointView<Eigen::Upper>().rankUpdate(current_vector, 1.0);
     }
     covariance_matrix /= (end - begin);
-    covariance_matrix.selfadjointView<Eigen::Upper>().rankUpdate(mean, -1.0);
     covariance_matrix.triangularView<Eigen::StrictlyLower>() = covariance_matrix.transpose();
 
     return covariance_matrix;
